@@ -507,6 +507,7 @@ let run_podstr (c : case) =
            if !full then pr " b=%s" (hex_of_bytes !v);
            pr "\n" in
          match t with
+         | ["default"] -> v := List.init n (fun _ -> N0); line "U"
          | [("from" | "fromstring" | "copy" | "copysl"); hx] ->
            v := ps_copy_from_slice nn (bytes_of_hex hx); line "U"
          | ["asstr"] ->
@@ -694,21 +695,22 @@ let coq_case (c : case) =
     let bits = n_of_int (kvn c.header "bits") in
     let cap = n_of_int (kvn c.header "cap") and nrec = n_of_int (kvn c.header "nrec") in
     let ops = List.filter_map parse_avl_op c.ops in
-    let rec run s ops = match ops with
+    let keep = (kv c.header "keep" = Some "1") in
+    let rec run x ops = match ops with
       | [] -> []
-      | o :: r -> (match step_c bits s o with
-          | Ok (((s', x), _)) -> ("Ok " ^ coq_avl_out x) :: run s' r
+      | o :: r -> (match step_sess bits x o with
+          | Ok (((x', y), _)) -> ("Ok " ^ coq_avl_out y) :: run x' r
           | Panic _ -> ["PANIC"] | Fuel -> ["FUEL"]) in
-    let res = run (init_c cap nrec) ops in
+    let res = run (init_sess cap nrec keep) ops in
     if not (List.mem "PANIC" res || List.mem "FUEL" res) then
-      pr "Goal Avl.Spec.run_c %s (Avl.Spec.init_c %s %s) [%s] = [%s]. Proof. vm_compute. reflexivity. Qed.\n"
-        (coq_n bits) (coq_n cap) (coq_n nrec) (String.concat "; " (List.map coq_avl_op ops)) (String.concat "; " res)
+      pr "Goal Avl.Session.run_sess %s (Avl.Session.init_sess %s %s %s) [%s] = [%s]. Proof. vm_compute. reflexivity. Qed.\n"
+        (coq_n bits) (coq_n cap) (coq_n nrec) (coq_bool keep) (String.concat "; " (List.map coq_avl_op ops)) (String.concat "; " res)
   | "hash" ->
     let vty = kvs c.header "vty" in
     let hf, _ = hash_fn vty in
     let hfs = if String.length vty > 4 && String.sub vty 0 4 = "weak"
       then "(hash_weak " ^ coq_z (z_of_string (String.sub vty 4 (String.length vty - 4))) ^ ")"
-      else "(hash_int " ^ (match vty with "u64" -> "8" | "u32" -> "4" | _ -> "1") ^ "%nat)" in
+      else "(hash_int " ^ (match vty with "u64" -> "8" | "u32" -> "4" | "u128" -> "16" | _ -> "1") ^ "%nat)" in
     let cap = n_of_int (kvn c.header "cap") and nrec = n_of_int (kvn c.header "nrec") in
     let ops = List.filter_map parse_hash_op c.ops in
     let rec run s ops = match ops with
@@ -726,12 +728,12 @@ let coq_case (c : case) =
     let ops = List.filter_map parse_arr_op c.ops in
     let rec run s ops = match ops with
       | [] -> []
-      | o :: r -> (match astep_c p s o with
+      | o :: r -> (match astep_chk p s o with
           | Ok (((s', x), _)) -> ("Ok " ^ coq_arr_out x) :: run s' r
           | Panic _ -> ["PANIC"] | Fuel -> ["FUEL"]) in
     let res = run (ainit_c [] [] slots) ops in
     if not (List.mem "PANIC" res || List.mem "FUEL" res) then
-      pr "Goal Arr.Spec.arun_c %s (Arr.Spec.ainit_c [] [] %s) [%s] = [%s]. Proof. vm_compute. reflexivity. Qed.\n"
+      pr "Goal Arr.Checked.arun_chk %s (Arr.Spec.ainit_c [] [] %s) [%s] = [%s]. Proof. vm_compute. reflexivity. Qed.\n"
         (coq_n p) (coq_n slots) (String.concat "; " (List.map coq_arr_op ops)) (String.concat "; " res)
   | _ -> ()
 
